@@ -1164,6 +1164,19 @@ func (ev *evalCtx) call(x *ast.CallExpr, want types.Type) (string, types.Type, e
 			return "", nil, fmt.Errorf("container/list is not loaded")
 		}
 		return fmt.Sprintf("(select (select %s %s) %s)", ev.H("ghost:lseq"), l, ev.to64(i, it)), et, nil
+	case "offset":
+		// offset(s): index of s[0] within its backing array (to relate sub-slices of one array)
+		if err := argc(1); err != nil {
+			return "", nil, err
+		}
+		a, t, err := ev.expr(x.Args[0], nil)
+		if err != nil {
+			return "", nil, err
+		}
+		if ev.c.te.sortOf(t) != "Slice" {
+			return "", nil, fmt.Errorf("offset of %s", t)
+		}
+		return fmt.Sprintf("(s_off %s)", a), intT, nil
 	case "fresh":
 		// fresh(x): x (pointer or slice) refers to an object allocated during this call
 		// (or is nil) - it cannot alias anything the caller passed in
@@ -1272,6 +1285,8 @@ func (ev *evalCtx) call(x *ast.CallExpr, want types.Type) (string, types.Type, e
 			return fmt.Sprintf("(not (= %s NullLoc))", a), boolT, nil
 		case "Iface":
 			return fmt.Sprintf("(not (= (i_typ %s) 0))", a), boolT, nil
+		case "Fn":
+			return fmt.Sprintf("(not (= (fn_id %s) 0))", a), boolT, nil
 		}
 		return "", nil, fmt.Errorf("nonnil of %s", t)
 	case "typeis":
